@@ -78,6 +78,8 @@ def cases(ctx):
     # encodes thanks to it must still never cost the input file
     configs = configs + [dict(c, errors="replace") for c in configs if c["size"] == 5 and c["enc"] in ("cp1252", "cp932")
                          and c["output"] in (False, True) and "body" not in c]
+    configs = configs + [dict(c, charts_only=True) for c in configs if c["size"] == 5 and c["enc"] in ("utf-8", "cp1252")
+                         and c["output"] in (False, True) and "body" not in c and "errors" not in c]
     # ... and the strict default again afterwards, in the same process and the same encodings
     configs = configs + [dict(c, again=True) for c in configs if c["size"] == 5 and c["enc"] in ("cp1252", "cp932")
                          and c["output"] is False and "body" not in c and "errors" not in c and c["fs"] == "memory"]
@@ -94,9 +96,14 @@ def content_for(base):
     if ext == "ssc":
         lines.append("#VERSION:0.83;")
     lines.append(f"#TITLE:{t};")
+    # a value with the line separators that str.splitlines() knows besides LF: form feed, vertical tab, FS, GS, RS
+    lines.append("#ODDSEP:a\x0cb\x0bc\x1cd\x1de\x1ef;")
     for i in range(size - 1):
         lines.append(f"#KEY{i}:{t} {i};")
     ncharts = {1: 0, 5: 1, 40: 3}[size]
+    if base.get("charts_only"):
+        lines = []     # a file made of charts only: no song-level parameter at all
+        ncharts = 2
     for i in range(ncharts):
         if ext == "ssc":
             lines.append(f"#NOTEDATA:;\n#STEPSTYPE:dance-single;\n#DESCRIPTION:{t}{i};\n#DIFFICULTY:Hard;\n#METER:{i};\n#NOTES:\n0000\n0001\n1000\n0000\n;")
@@ -203,6 +210,8 @@ def run(base, fault, want_lines=False):
 
             fresh = str((SMSimfile if ext == "sm" else SSCSimfile)(string=data.decode(base["enc"]))).encode(base["enc"])
             stale = fresh.replace(b"#TITLE:", b"#TITLF:", 1)
+            if stale == fresh:
+                stale = fresh.replace(b"dance-single", b"dance-singlf", 1)
             world.write("in.bak", stale)
         inp = world.path("in." + ext)
         if base["output"] == "alias":
